@@ -632,16 +632,24 @@ theorem store_as_modelled :
     RefGrant.refGrantPredicate = "nil" ∧
     RefGrant.refGrantWatchOptions =
       "[]controller.Option{ controller.WithK8sPredicate(k8spredicate.GenerationChangedPredicate{}), }" ∧
-    RefGrant.trackerUpsertBody =
-      ["objTypeGVK := s.extractGVK(obj)", "var oldObj client.Object",
-       "if s.store.persists(objTypeGVK) { oldObj = s.store.get(obj, client.ObjectKeyFromObject(obj)) s.store.upsert(obj) }",
-       "stateChanged, ok := s.stateChangedPredicates[objTypeGVK]", "if !ok { return true }",
-       "return stateChanged.upsert(oldObj, obj)"] ∧
-    RefGrant.trackerDeleteBody =
-      ["objTypeGVK := s.extractGVK(objType)",
-       "if s.store.persists(objTypeGVK) { if s.store.get(objType, nsname) == nil { return false } s.store.delete(objType, nsname) }",
-       "stateChanged, ok := s.stateChangedPredicates[objTypeGVK]", "if !ok { return true }",
-       "return stateChanged.delete(objType, nsname)"] ∧
+    -- a cfg entry with a nil predicate is absent from the predicate map, one with a store is persisted …
+    RefGrant.trackerCfgIfs =
+      ["if cfg.predicate != nil { stateChangedPredicates[cfg.gvk] = cfg.predicate }",
+       "if cfg.store != nil { persistedGVKs = append(persistedGVKs, cfg.gvk) stores[cfg.gvk] = cfg.store }"] ∧
+    -- … upsert: write to the store, then "no predicate ⇒ changed" (`stepStore … (.upsertGrant g)`) …
+    RefGrant.trackerUpsertShape = ["store", "lookup", "nopred", "return"] ∧
+    RefGrant.trackerUpsertStore =
+      ["if s.store.persists(objTypeGVK)", "oldObj = s.store.get(obj, client.ObjectKeyFromObject(obj))", "s.store.upsert(obj)"] ∧
+    RefGrant.trackerUpsertNoPredicate =
+      ["stateChanged, ok := s.stateChangedPredicates[objTypeGVK]", "if !ok { return true }"] ∧
+    -- … delete: absent ⇒ unchanged, else remove, then "no predicate ⇒ changed" (`stepStore … (.deleteGrant ns name)`).
+    -- Which object a predicate judges (kinds WITH a predicate) is not part of this property and not pinned.
+    RefGrant.trackerDeleteShape = ["store", "lookup", "nopred", "return"] ∧
+    RefGrant.trackerDeleteStore =
+      ["if s.store.persists(objTypeGVK)", "old := s.store.get(objType, nsname)", "if old == nil { return false }",
+       "s.store.delete(objType, nsname)"] ∧
+    RefGrant.trackerDeleteNoPredicate =
+      ["stateChanged, ok := s.stateChangedPredicates[objTypeGVK]", "if !ok { return true }"] ∧
     RefGrant.setChangeTypeBody =
       ["if changed && s.changeType != ClusterStateChange { if _, ok := obj.(*discoveryV1.EndpointSlice); ok { s.changeType = EndpointsOnlyChange } else { s.changeType = ClusterStateChange } }"] ∧
     RefGrant.processBody =
